@@ -1,5 +1,6 @@
 """Bytecode compiler - compiles AST to bytecode."""
 
+import itertools
 from typing import List, Dict, Any, Optional, Tuple
 from dataclasses import dataclass, field
 from .ast_nodes import (
@@ -52,6 +53,12 @@ from .ast_nodes import (
 from .opcodes import OpCode
 from .values import UNDEFINED
 from .errors import JSError, JSSyntaxError
+
+
+# Numbers the internal names of catch parameters. Program-level ones live among the
+# globals of a context and are read by closures for as long as the context lives, so a
+# later program must not reuse the name of an earlier one.
+_catch_parameter_ids = itertools.count(1)
 
 
 @dataclass
@@ -996,7 +1003,6 @@ class Compiler:
             FunctionExpression,
             ArrowFunctionExpression,
         )
-        counter = 0
         # (node, renames in force) - iterative, programs nest deeply
         work_stack: List[Tuple[Node, Dict[str, str]]] = [(program, {})]
         while work_stack:
@@ -1006,8 +1012,7 @@ class Compiler:
                     current.name = renames[current.name]
                 continue
             if isinstance(current, CatchClause):
-                counter += 1
-                fresh = f"{current.param.name}@{counter}"
+                fresh = f"{current.param.name}@{next(_catch_parameter_ids)}"
                 renames = dict(renames)
                 renames[current.param.name] = fresh
             elif isinstance(current, function_types) and renames:
